@@ -570,3 +570,64 @@ class check_index__nan:
         import math
         for i in range(-5, 6):
             yield {"axis": 0, "ind": i, "dimension": math.nan}
+
+
+# ---------------------------------------------------------------------------
+# parse_assignment_indices: the slice branch of its loop body, as a verified *fragment*
+# (the rest of the function - tuple walk, arrays, NotImplemented cases - is outside this unit)
+# ---------------------------------------------------------------------------
+@contract(f"{UTILS}::parse_assignment_indices", spec="slice-branch", props=["C11", "C12"])
+class parse_assignment_slice_branch:
+    """a normalised slice index of an assignment is recast as an increasing slice that selects the same set of
+    positions; the implied extent is the number of selected positions; reversed axes are recorded"""
+    fragment = {"first": "start, stop, step = index.indices(size)", "last": "if stop <= start:"}
+    params = {"index": "slice", "size": "int", "i": "int", "implied_shape": "lseq", "implied_shape_positions": "lseq",
+              "reverse": "lseq"}
+    ghosts = {"p": "int"}
+
+    def requires(index, size, i, implied_shape, implied_shape_positions, reverse):
+        return S.And(size >= 0, norm_bounds(index, size), i >= 0)
+
+    def ensures(result, index, size, i, implied_shape, implied_shape_positions, reverse, p):
+        new = result.index
+        lo, hi, st = S.idx3(new, size)
+        n = S.nsel(index, size)
+        return {
+            "increasing": st > 0,
+            "same-positions": S.Implies(S.And(0 <= p, p < size), S.Iff(selected(new, size, p), selected(index, size, p))),
+            "implied-extent": S.And(S.slen(result.implied_shape) == S.slen(implied_shape) + 1,
+                                    S.lazy_implies(S.slen(result.implied_shape) == S.slen(implied_shape) + 1,
+                                                   lambda: S.at(result.implied_shape, S.slen(implied_shape)) == n)),
+            "reverse-recorded": S.Iff(S.slen(result.reverse) == S.slen(reverse) + 1, S.And(S.Not(S.is_none(S.parts(index)[2])),
+                                                                                       S.val(S.parts(index)[2], 1) < 0)),
+        }
+
+    def post_hints(result, index, size, i, implied_shape, implied_shape_positions, reverse, p):
+        # proof script for the reversed case: with s = -step, div = (lo-hi-1)//s and y = lo - p,
+        # the recast slice starts at lo - div*s; membership turns on y % s and on y <= div*s
+        lo, hi, st = S.idx3(index, size)
+        s_ = -st
+        y = lo - p
+        div = S.div(lo - hi - 1, s_)
+        m = S.div(y, s_)
+        return {
+            "neg": ("lemma", "mod_neg_zero", y, s_),
+            "shift": ("lemma", "mod_shift", -y, div, s_),
+            "mono-m": S.Implies(S.And(st < 0, m >= div + 1), m * s_ >= (div + 1) * s_),
+            "mono-m2": S.Implies(S.And(st < 0, m <= div), m * s_ <= div * s_),
+        }
+
+    def ghost_domain(index, size, i, implied_shape, implied_shape_positions, reverse):
+        return {"p": range(0, size)}
+
+    def domain(tier, rng):
+        from dask_array.slicing._utils import normalize_slice
+        seen = set()
+        for size in range(0, 7 if tier == "quick" else 10):
+            for s in small_slices(tier):
+                ns = normalize_slice(s, size)
+                key = (size, ns.start, ns.stop, ns.step)
+                if key in seen:
+                    continue
+                seen.add(key)
+                yield {"index": ns, "size": size, "i": 0, "implied_shape": [], "implied_shape_positions": [], "reverse": []}
